@@ -18,7 +18,7 @@ FIXES = [
     ('4b6fb93', 'C18', 'D10 form feed line IndexError'),
     ('537c9db', 'C18', 'D11 unknown group name in replacement'),
     ('e1e8052', 'C18', 'D12 integer too large for text'),
-    ('d7fc2e4', 'C14', 'D13 spooled file rollover position'),
+    ('9626e28+d7fc2e4', 'C14', 'D13 spooled file rollover position (D20, a later repair of the adjacent lines, is reverted first)', 'C14-e'),
     ('2b4e2ef+2afec72', 'C06', 'D14 line-leading && outside parentheses (with the later D15)'),
     ('2b4e2ef', 'C06', 'D15 operands inside parentheses'),
     ('8b7a4dd', 'C10', 'D16 flush before a process writes to the output file'),
@@ -38,7 +38,9 @@ def sh(cmd, **kw):
 def main():
     only = set(sys.argv[1:])
     bad = 0
-    for commit, prop, what in FIXES:
+    for entry in FIXES:
+        commit, prop, what = entry[:3]
+        want_rule = entry[3] if len(entry) > 3 else None
         if only and prop not in only and commit not in only:
             continue
         if not os.path.isfile(os.path.join(VERIF, 'sa', 'rules', prop + '.py')):
@@ -59,7 +61,9 @@ def main():
                 continue
             r = sh([os.path.join(VERIF, 'verify'), 'check', prop, '--repo', wt, '--evidence-dir', evd, '--replay-dir', evd])
             fired = r.returncode == 1 and 'VIOLATION property=' + prop in r.stdout
-            line = next((l for l in r.stdout.splitlines() if l.startswith('src/')), '')
+            line = next((l for l in r.stdout.splitlines() if l.startswith('src/') and (want_rule is None or want_rule + ' /' in l)), '')
+            if want_rule is not None and not line:
+                fired = False
             print('%s %s %s (%s): exit %d  %s' % ('OK   ' if fired else 'MISS ', commit, prop, what, r.returncode, line[:160]))
             if not fired:
                 bad += 1
